@@ -514,7 +514,49 @@ def c_lit(e):
     return "((%s)%d)" % (CNAME[ty], v)
 
 
+# C operator precedence (ISO C 6.5, higher binds tighter); used by the minimal-parentheses rendering
+C_PREC = {"*": 13, "/": 13, "%": 13, "+": 12, "-": 12, "<<": 11, ">>": 11, "<": 10, "<=": 10, ">": 10, ">=": 10,
+          "==": 9, "!=": 9, "&": 8, "^": 7, "|": 6, "&&": 5, "||": 4}
+MINPAREN = False  # set by render_c(prog, minparen=True) for the duration of one rendering
+
+
+def c_expr_min(e, need=0):
+    """The expression with only the parentheses the C grammar requires (all binary operators are left
+    associative: the right operand needs one level more); `need` = lowest precedence that may stand here."""
+    k = e["k"]
+    if k in ("lit", "var", "idx", "fld", "deref", "call"):
+        if k == "lit":
+            s = c_lit(e)
+            return "(%s)" % s if s.startswith("-") and need > 15 else s
+        if k == "idx":
+            return "%s[%s]" % (e["a"], c_expr_min(e["e"]))
+        if k == "deref":
+            return "%s[%s]" % (e["p"], c_expr_min(e["e"]))
+        if k == "call":
+            return "%s(%s)" % (e["f"], ", ".join(c_expr_min(a, 2) for a in e["args"]))
+        if k == "var":
+            return e["n"]
+        return "%s.%s" % (e["s"], e["f"])
+    if k == "addr":
+        own, s = 15, "&%s[%s]" % (e["a"], c_expr_min(e["e"]))
+    elif k == "un":
+        a = c_expr_min(e["a"], 15)
+        own, s = 15, e["op"] + (" " if a[:1] in "-+&*" else "") + a
+    elif k == "cast":
+        own, s = 14, "(%s)%s" % (CNAME[e["ty"]], c_expr_min(e["a"], 14))
+    elif k == "bin":
+        own = C_PREC[e["op"]]
+        s = "%s %s %s" % (c_expr_min(e["a"], own), e["op"], c_expr_min(e["b"], own + 1))
+    elif k == "cond":
+        own, s = 3, "%s ? %s : %s" % (c_expr_min(e["c"], 4), c_expr_min(e["a"]), c_expr_min(e["b"], 3))
+    else:
+        raise AssertionError(k)
+    return "(%s)" % s if own < need else s
+
+
 def c_expr(e):
+    if MINPAREN:
+        return c_expr_min(e)
     k = e["k"]
     if k == "lit":
         return c_lit(e)
@@ -598,7 +640,18 @@ def c_stmts(ss, ind):
     return out
 
 
-def render_c(prog):
+def render_c(prog, minparen=None):
+    """C text of the abstract program; minparen=True writes expressions with only the parentheses the C
+    grammar requires (exercises the parser's precedence and associativity), otherwise fully parenthesised."""
+    global MINPAREN
+    old, MINPAREN = MINPAREN, bool(prog.get("minparen") if minparen is None else minparen)
+    try:
+        return _render_c(prog)
+    finally:
+        MINPAREN = old
+
+
+def _render_c(prog):
     out = []
     for g in prog["globals"]:
         if "struct" in g:
